@@ -450,6 +450,11 @@ static Janet cfun_it_##type##_##name(int32_t argc, Janet *argv) { \
 #define DIVZERO_div janet_panic("division by zero")
 #define DIVZERO_rem janet_panic("division by zero")
 #define DIVZERO_mod return janet_wrap_abstract(box)
+/* Inside the loop of the variadic methods, x mod 0 is x: go on with the next operand */
+#define DIVZERO_NEXT(name) DIVZERO_NEXT_##name
+#define DIVZERO_NEXT_div DIVZERO_div
+#define DIVZERO_NEXT_rem DIVZERO_rem
+#define DIVZERO_NEXT_mod continue
 
 #define DIVMETHOD(T, type, name, oper) \
 static Janet cfun_it_##type##_##name(int32_t argc, Janet *argv) { \
@@ -458,7 +463,7 @@ static Janet cfun_it_##type##_##name(int32_t argc, Janet *argv) { \
     *box = janet_unwrap_##type(argv[0]); \
     for (int32_t i = 1; i < argc; i++) { \
       T value = janet_unwrap_##type(argv[i]); \
-      if (value == 0) DIVZERO(name); \
+      if (value == 0) DIVZERO_NEXT(name); \
       *box oper##= value; \
     } \
     return janet_wrap_abstract(box); \
@@ -482,7 +487,7 @@ static Janet cfun_it_##type##_##name(int32_t argc, Janet *argv) { \
     *box = janet_unwrap_##type(argv[0]); \
     for (int32_t i = 1; i < argc; i++) { \
       T value = janet_unwrap_##type(argv[i]); \
-      if (value == 0) DIVZERO(name); \
+      if (value == 0) DIVZERO_NEXT(name); \
       if ((value == -1) && (*box == INT64_MIN)) janet_panic("INT64_MIN divided by -1"); \
       *box oper##= value; \
     } \
